@@ -33,6 +33,14 @@ add("C04",
     "solver in the harness (untrusted). Tolerances are the property's: 2e-2 capture units / 1% of bound range (default), 2e-3 / 1e-6 (CLARABEL tight settings).",
     "Coq weak-duality certificate checker (proved sound) run by vm_compute on real fits + formulation theorems", "DESIGN.md §5 C04, §3.2")
 
+add("C02",
+    "Theorems over all inputs: system capture of x == capture of the mixed spectrum sum_k x_k source_k (any sizes, all integration rules); "
+    "the transformed-matrix route K@A, K@baseline == K(Ax+baseline) for scalar/vector/matrix K; after replace-mode background adaptation with baseline the "
+    "relative capture of the background is the all-ones vector (add-mode refuted by witness). Model tied to ReceptorEstimator by kernel-evaluated "
+    "agreement on A, system_capture, system_relative_capture, capture/relative_capture of mixtures, and K / relative capture after both adaptation calls.",
+    TRUST + "Not modelled: numpy float arithmetic (tolerance 1e-9), domain equalisation (C19).",
+    "Coq proof over Q (linearity by induction over sources) + vm_compute correspondence", "DESIGN.md §5 C02")
+
 NOT_APPLICABLE = []
 ALL = ["C%02d" % i for i in range(1, 21)]
 
